@@ -212,7 +212,44 @@ def sig_abs_inverted(sc, o, clause, ident, diags):
                     if q.name == port and sc.name_in(o, q.wire) == ident: return True
     return False
 
+def clock_named_ports(sc, c):
+    """the data ports of c that carry the name of c's implicit clock port"""
+    ck = sc.clkname(c)
+    if ck is None or not sc.gen.anyClockableDescendant(c): return []
+    return [q for q in sc.ports(c) if q.name == ck]
+
+
+def variables_of(o):
+    """names the transpiler turns into Verilog variables: locals assigned in propagate/clock and integer state attributes"""
+    names = {k for k, v in vars(o).items() if isinstance(v, int) and not isinstance(v, bool)}
+    for meth in ('propagate', 'clock'):
+        f = getattr(type(o), meth, None)
+        if f is None: continue
+        try:
+            tree = ast.parse(textwrap.dedent(inspect.getsource(f)))
+        except Exception:
+            continue
+        names |= {n.id for n in ast.walk(tree) if isinstance(n, ast.Name) and isinstance(n.ctx, ast.Store)}
+        names |= {n.attr for n in ast.walk(tree) if isinstance(n, ast.Attribute) and isinstance(n.ctx, ast.Store) and isinstance(n.value, ast.Name) and n.value.id == 'self'}
+    return names
+
+
+def sig_keyword_variable(sc, o, clause, ident, diags):
+    # a VARIABLE (never a port: a keyword-named port must be renamed consistently) of a transpiled block is a keyword
+    return clause == 'reserved_word' and sc.transpiled(o) and ident in variables_of(o) and ident not in {q.name for q in sc.ports(o)}
+
+def sig_variable_port_collision(sc, o, clause, ident, diags):
+    names = {sc.R.getPortName(q) for q in sc.ports(o)}
+    if sc.gen.anyClockableDescendant(o): names.add(sc.clkname(o))          # the implicit clock port
+    return sc.transpiled(o) and ident in variables_of(o) and ident in names
+
 def sig_port_named_clock(sc, o, clause, ident, diags):
+    # seen from the parent: a connection of an instance whose module has a data port named like its implicit clock port
+    c, port = sc.child_port(o, ident)
+    if c is not None and port == sc.clkname(c) and clock_named_ports(sc, c): return True
+    if clause == 'undriven':
+        for c in o.children.values():
+            if any(sc.name_in(o, q.wire) == ident for q in clock_named_ports(sc, c)): return True
     ck = sc.clkname(o)
     if ck is None or not sc.gen.anyClockableDescendant(o): return False
     mine = [q for q in sc.ports(o) if q.name == ck]
@@ -247,6 +284,8 @@ SIGNATURES = {
     'abs-structure-name-ignores-inverted': sig_abs_inverted,
     'port-named-like-implicit-clock': sig_port_named_clock,
     'stack-flags-undriven': sig_stack_flags,
+    'transpiler-keyword-variable': sig_keyword_variable,
+    'transpiler-variable-port-collision': sig_variable_port_collision,
     'subborrowin-undefined-attribute': sig_subborrowin,
     'i-prefix-collision': sig_inst_prefix,
 }
@@ -283,7 +322,19 @@ def psig_negative_reset_value(case):
     return "identifier expected, got '-'" in case.error and \
         any(type(o).__name__ == 'Reg' and isinstance(o.reset_value, int) and o.reset_value < 0 for o in all_objects(case.top))
 
+def psig_keyword_variable(case):
+    import py4hw.rtl_generation as R
+    m = re.search(r"identifier expected, got '(\w+)'", case.error)
+    if not m or not R.isReservedVerilogKeyword(m.group(1)): return False
+    kw = m.group(1)
+    gen = common.quiet_import().VerilogGenerator(case.top)
+    for o in all_objects(case.top):
+        if (o.isPropagatable() or o.isClockable()) and not gen.isProvidingBody(o) and not gen.isInlinable(o):
+            if kw in variables_of(o) and kw not in {q.name for q in list(o.inPorts) + list(o.outPorts) + list(o.inOutPorts)}: return True
+    return False
+
 PARSE_SIGNATURES = {
+    'transpiler-keyword-variable': psig_keyword_variable,
     'reg-negative-reset-value-module-name': psig_negative_reset_value,
     'ternary-emitted-as-statement': psig_ternary,
     'signextend-replication-count': psig_negative_replication,
@@ -384,6 +435,7 @@ def stream(ctx):
             cases += [c for i, c in enumerate(l) if i % 3 == 0 or len(l) <= 4]
     cases += D.random_netlists(ctx.seed, 12 if q else 400)
     cases += D.behavioural()
+    cases += D.behavioural_names(q, ctx.seed)
     cases += D.adversarial(q)
     cases += D.generator_reuse(q)      # order matters inside this group: consecutive calls on one generator object
     return cases
